@@ -61,8 +61,8 @@ Theorem C12_iterate_exact : forall db c m pfx p limit reverse,
   forall k, overlay db (snd (db_Iterate db c pfx p limit reverse)) k = overlay db c k.
 Proof. exact iterate_refines. Qed.
 
-(* pkg/db scans: exactly the keys inside the bounds, in order, truncated.  [eff_limit]: -1 = no limit,
-   n >= 1 = the first n; iterator.go counts after appending, so 0 (and negatives other than -1) behave as 1. *)
+(* pkg/db scans: exactly the keys inside the bounds, in order, truncated.  [eff_limit] = the limit reading of
+   diffdb's mergeSortLimit: a limit >= 0 is the maximum number of results (0 = none), any negative limit = no limit. *)
 Theorem C12_db_scans_exact_range : forall db s e limit reverse, sorted db ->
   iterate_range db s e limit reverse =
   eff_limit limit (dir reverse (filter (fun x => leb s (fst x) && leb (fst x) e) db)).
@@ -74,8 +74,26 @@ Theorem C12_db_scans_exact_prefix : forall db p limit reverse, wf_key p -> wf_db
 Proof. intros. split; [apply iterate_prefix_exact|apply iterate_key_exact]; assumption. Qed.
 
 Theorem C12_eff_limit_sane : forall limit (l : list kv),
-  (limit = -1 -> eff_limit limit l = l)%Z /\ (1 <= limit -> eff_limit limit l = firstn (Z.to_nat limit) l)%Z.
+  (limit < 0 -> eff_limit limit l = l)%Z /\ (0 <= limit -> eff_limit limit l = firstn (Z.to_nat limit) l)%Z.
 Proof. exact eff_limit_sane. Qed.
+
+(* the two layers agree for EVERY limit value: with nothing staged, Range / Iterate through a view return exactly what
+   IterateRange / Iterate of pkg/db return for the prefixed arguments and the SAME limit (view prefix removed) *)
+Theorem C12_layers_agree_on_limits : forall db pfx s e p limit reverse, sorted db -> wf_db db -> wf_key (pfx ++ p) ->
+  fst (db_Range db [] pfx s e limit reverse) =
+    map (strip (length pfx)) (iterate_range db (pfx ++ s) (pfx ++ e) limit reverse) /\
+  fst (db_Iterate db [] pfx p limit reverse) =
+    map (strip (length pfx)) (iterate_prefix db (pfx ++ p) limit reverse).
+Proof.
+  intros db pfx s e p limit reverse Hs Hw Hp.
+  assert (Hmap : forall (l : list kv), take_limit limit (map (strip (length pfx)) l) = map (strip (length pfx)) (eff_limit limit l)).
+  { intros l. unfold take_limit, eff_limit. destruct (limit >? -1)%Z; auto. apply firstn_map. }
+  split.
+  - rewrite (proj1 (range_refines db [] db pfx s e limit reverse Hs Hs (Inv_nil db) (fun k => eq_refl))).
+    rewrite iterate_range_exact by auto. unfold spec_range, range_spec. apply Hmap.
+  - rewrite (proj1 (iterate_refines db [] db pfx p limit reverse Hs Hw Hp Hs (Inv_nil db) (fun k => eq_refl))).
+    rewrite iterate_prefix_exact by auto. unfold spec_iterate, prefix_spec. apply Hmap.
+Qed.
 
 Theorem C12_upperBound_spec : forall p k, wf_key p -> wf_key k ->
   is_prefix p k = (leb p k && below_ub k (upper_bound p)).
